@@ -730,7 +730,7 @@ PROPS = {
     'C06': dict(lean_modules=['SfxProps.C06', 'SfxProps.C06Spec'], bins=['arith'], profiles=['chk', 'rel'], gen=gen_C06, thorough_all_fracs=True),
     'C07': dict(lean_modules=['SfxProps.C07', 'SfxProps.C07Forms', 'SfxProps.C07Spec'], bins=['arith'], profiles=['chk', 'rel'], gen=gen_C07x, thorough_all_fracs=True),
     'XBITS': dict(lean_modules=['SfxProps.C11Bits'], bins=['arith'], profiles=['chk', 'rel'], gen=gen_XBITS),   # not a property: a part of C11's corpus
-    'C18': dict(lean_modules=['SfxProps.C18', 'SfxProps.C18Entry'], bins=['wrap', 'conv', 'text'], profiles=['chk', 'rel'], gen=gen_C18, thorough_all_fracs=True,
+    'C18': dict(lean_modules=['SfxProps.C18', 'SfxProps.C18Entry', 'SfxProps.C02Spec'], bins=['wrap', 'conv', 'text'], profiles=['chk', 'rel'], gen=gen_C18, thorough_all_fracs=True,
                 rule='programs of 1..12 Wrapping operations (every impl variant is a distinct step kind); de-duplicated per unit; '
                      'non-trivial = some operand magnitude > 1; evaluations counts program x profile executions'),
     'C10': dict(lean_modules=['SfxProps.C10', 'SfxProps.C10Serde'], bins=['codec'], profiles=['chk', 'rel'], gen=gen_C10x, thorough_all_fracs=True,
@@ -753,5 +753,5 @@ PROPS = {
     'C11': dict(lean_modules=['SfxProps.C11', 'SfxProps.C11Bits'], bins=['arith', 'wrap', 'conv', 'math', 'text', 'codec', 'cast'], profiles=['chk', 'rel'], gen=gen_C11, spec_ignore=r'spec=Ok_for_a_result_that_does_not_fit',
                 rule='union of the request corpora of C01 C02 C06 C07 C18 C04 C05 C03 C12 C08 C09 C10 and the shift/bit-inspection family (sub-sampled in quick), each request executed by the harness built with and '
                      'without debug assertions/overflow checks and compared with the model projections; non-trivial = some operand magnitude > 1'),
-    'C02': dict(lean_modules=['SfxProps.C02', 'SfxProps.C02Ops'], bins=['arith', 'wrap'], profiles=['chk', 'rel'], gen=gen_C02x, thorough_all_fracs=True),
+    'C02': dict(lean_modules=['SfxProps.C02', 'SfxProps.C02Ops', 'SfxProps.C02Spec'], bins=['arith', 'wrap'], profiles=['chk', 'rel'], gen=gen_C02x, thorough_all_fracs=True),
 }
